@@ -43,4 +43,13 @@ for o in *.gcno; do
   gcov -o . "$f.o" >/dev/null 2>&1
   [ -f "$f.c.gcov" ] && grep -a '^ *#####' "$f.c.gcov" | sed "s|^ *#####: *|$f.c:|" >> "$HERE/coverage/UNCOVERED.txt"
 done
+: > "$HERE/coverage/BRANCHES.txt"
+for f in cmb_process cmb_resourceguard cmb_resource cmb_resourcepool cmb_buffer cmb_objectqueue cmb_priorityqueue cmb_condition cmb_event cmi_hashheap cmi_coroutine cimba cmi_mempool cmi_holdable cmi_resourcebase; do
+  gcov -b -c -o . "$f.o" >/dev/null 2>&1
+  [ -f "$f.c.gcov" ] && awk -v file="$f.c" '
+    /^ *[0-9#-]+:/ { split($0, a, ":"); line=a[2]+0; text=$0; sub(/^[^:]*:[^:]*:/, "", text) }
+    /^branch +[0-9]+ taken 0/ { if (text !~ /cmb_assert|cmi_assert/) print file ":" line ": " $1 " " $2 " never taken:" text }
+    /^branch +[0-9]+ never executed/ { }
+  ' "$f.c.gcov" >> "$HERE/coverage/BRANCHES.txt"
+done
 cat "$HERE/coverage/REPORT.md"
